@@ -786,7 +786,7 @@ func simulate(m *model, ops []cop) (*model, []bool) {
 	return c, res
 }
 
-const pairTimeout = 20 * time.Second
+const pairTimeout = 300 * time.Second
 
 type addRes struct {
 	err error
